@@ -57,10 +57,15 @@ DomCaseT = Tup(DctorT, List(Tup(ValueT, Bool)), List(ValueT),
 FacCaseT = Tup(FctorT, Res(FactorT), List(Tup(List(ValueT), Res(TensorT))), List(Tup(FactorT, Bool)))
 BindCaseT = Tup(StateT, List(Tup(OpT, OutcomeT, StateT)))
 
+from harness.props import _c06_util as U       # AxisT / PnT wire types (decoder d_axis comes with C06's glue), typed pattern generator
+PatT = Tup(List(U.PnT), List(QQ), List(U.AxisT), QQ)
+FacpCaseT = Tup(List(DomainT), PatT, PatT, Res(FactorT), List(Tup(List(ValueT), Res(TensorT))), List(Tup(FactorT, Bool)))
+
 DOM = CheckFn("c20dom", "Model.Domain", "dom_check", DomCaseT)
 FAC = CheckFn("c20fac", "Model.Domain", "fac_check", FacCaseT)
 BIND = CheckFn("c20bind", "Model.Domain", "bind_check", BindCaseT)
-CHECKFNS = [DOM, FAC, BIND]
+FACP = CheckFn("c20facp", "Model.DomainPat", "facp_check", FacpCaseT, imports=["Model.Axis", "Model.Domain"])
+CHECKFNS = [DOM, FAC, BIND, FACP]
 
 # no known finding is left: F14 (19d007a), F15 (7d2f845) and RangeDomain.contains on non-integers
 # (973b650) are repaired in /repo; the check has no finding_key and no special verdict code
@@ -68,7 +73,9 @@ OPEN_ITEMS = []
 
 ASSUMPTIONS = [
     "Python values are canonicalised by the harness: int/bool/finite float to the reduced rational they denote (so 1 == 1.0 == True coincide), every other hashable value to a code such that codes are equal iff the values are == (assigned through a dict, i.e. by hash and ==); where the code observes the difference (RangeDomain.contains: isinstance(value, int)) the probe carries the flag isinstance(value, int); floats are never used where an index is expected",
-    "a PatternedTensor given as weights is modelled by the dense tensor it denotes (to_dense()); the patterned representation itself is C06/C13's subject.  Dense, PatternedTensor.eye and PatternedTensor.full inputs are generated",
+    "fac cases: a PatternedTensor given as weights is modelled by the dense tensor it denotes (to_dense()).  pfac cases: the harness observes the REPRESENTATION of the weights (physical data, paxes, vaxes, default; PhysicalAxis objects named by identity) and Coq computes the dense denotation from it (Model.DomainPat.pat_dense, with C06's model of Axis.index: stored element where every vaxis decodes the position, the default where one reports a miss); apply, ==, the setter's shape check and to_dense() are judged against that",
+    "+inf / -inf among weights and defaults are coded as the non-dyadic rationals +-3000001/3 (no float equals them, so the coding is injective and preserves ==); NaN is never generated",
+    "pfac: out-of-range ints of a RangeDomain are not probed on patterned weights (PatternedTensor.__getitem__ returns the default at the first index that is off the pattern without range-checking later indices; its range checks are `if __debug__` assertions)",
     "weights are dyadic rationals exactly representable in float32; tensors are compared exactly (as rationals) inside Coq",
     "torch.tensor(nested lists) is modelled from the observed behaviour of torch's compute_sizes / recursive_store (sizes from the first elements, lengths validated only for non-empty tensors)",
     "exceptions are compared by class (KeyError, IndexError, ValueError, TypeError, other); messages are not modelled",
@@ -113,9 +120,25 @@ def obs_dom(d, cn):
     assert type(d) is RangeDomain
     return ("DRange", size_w(d._size))
 
+INFQ = Fraction(3000001, 3)        # stands for +inf: no float is a non-dyadic rational, so the coding is injective
+
+def qfrac(x):
+    """number -> the rational it denotes; +-inf -> +-INFQ (NaN is never generated)"""
+    x = float(x)
+    if x == math.inf: return INFQ
+    if x == -math.inf: return -INFQ
+    return Fraction(x)
+
 def tensor_w(t):
     """torch.Tensor -> (shape, exact row-major data)"""
-    return ([int(n) for n in t.shape], [Fraction(float(x)) for x in t.reshape(-1).tolist()])
+    return ([int(n) for n in t.shape], [qfrac(x) for x in t.reshape(-1).tolist()])
+
+def obs_pat(t, world):
+    """the REPRESENTATION of a PatternedTensor: (paxes with sizes, physical data row-major, vaxes, default);
+    PhysicalAxis objects are named by the world (same object <-> same uid)"""
+    paxes = [(world.name(k), int(k._numel)) for k in t.paxes]
+    assert [int(n) for n in t.physical.shape] == [n for _, n in paxes], (t.physical.shape, paxes)
+    return (paxes, [qfrac(x) for x in t.physical.reshape(-1).tolist()], [world.wire(e) for e in t.vaxes], qfrac(t.default))
 
 def obs_fac(f, cn):
     from fggs.factors import FiniteFactor, ConstantFactor
@@ -237,6 +260,160 @@ def run_fac(spec):
             g = f if o == "self" else build_fac(o, cn)[0]()
             ieqs.append((obs_fac(g, cn), bool(f == g)))
     return (cw, ictor, iapps, ieqs)
+
+# --- factors whose weights are a PatternedTensor, judged against the representation ------------
+
+SEMIRINGS = ("Real", "Log", "Viterbi", "Bool")
+
+def build_pw(b, world):
+    """base spec -> PatternedTensor, through each constructor the library offers:
+    ["spec", tensorspec]  PatternedTensor(physical, paxes, vaxes, default)   (tensorspec as in _c06_util)
+    ["eye", n, semiring]  PatternedTensor.eye      ["full", shape, value, dtype]  PatternedTensor.full
+    ["dense", shape, data, default]  PatternedTensor(tensor, default=...)     ["from_int", k, semiring]"""
+    import torch
+    from fggs.indices import PatternedTensor
+    if b[0] == "spec":
+        sp = dict(b[1], values=[float(x) for x in b[1]["values"]], default=float(b[1]["default"]))
+        bw = U.World(); world.keep.append(bw)       # uids of a spec are local to it; the observing world names the objects
+        return U.build_tensor(sp, bw)
+    if b[0] in ("eye", "from_int"):
+        import fggs.semirings as S
+        sr = getattr(S, b[2] + "Semiring")()
+        return PatternedTensor.eye(b[1], sr) if b[0] == "eye" else PatternedTensor.from_int(b[1], sr)
+    if b[0] == "full":
+        return PatternedTensor.full(tuple(b[1]), float(b[2]), dtype=U.torch_dtype(b[3]))
+    if b[0] == "dense":
+        t = torch.tensor([float(x) for x in b[2]], dtype=torch.float64).reshape(b[1])
+        return PatternedTensor(t, default=float(b[3]))
+    raise ValueError(b[0])
+
+def conv_pw(t, op):
+    """one conversion step; an op that does not apply to this tensor is skipped (None)"""
+    from fggs.indices import stack
+    try:
+        k = op[0]
+        if k == "T": return t.T
+        if k == "permute": return t.permute([d for d in op[1] if d < t.dim()] ) if sorted(d for d in op[1] if d < t.dim()) == list(range(t.dim())) else None
+        if k == "clone": return t.clone()
+        if k == "freshen": return t.freshen()
+        if k == "default_to": return t.default_to(float(op[1]))
+        if k == "getitem": return t[tuple(i % n for i, n in zip(op[1], t.shape))] if t.dim() >= 2 else None
+        if k == "stack": return stack([t, t.default_to(float(op[2])) if op[2] is not None else t.clone()][:op[1]] + [t] * max(0, op[1] - 2), op[3] % (t.dim() + 1))
+        if k == "unsqueeze": return t.unsqueeze(op[1] % (t.dim() + 1))
+        if k == "flatten": return t.flatten()
+        if k == "dim_to_dense": return t.dim_to_dense(op[1] % t.dim()) if t.dim() else None
+        if k == "mul": return t.mul(op[1])
+        if k == "add_self": return t.add(t.T) if t.dim() == 2 and t.shape[0] == t.shape[1] else t.add(t)
+        if k == "expand": return t.unsqueeze(0).expand(op[1], *t.shape)
+    except Exception:
+        return None
+    raise ValueError(op)
+
+def pick_domspec(n, f):
+    if f == 0 and n > 8: f = 1
+    if f == 3 and n > 5: f = 2
+    return gen_domspec(n, f)
+
+def pfac_probes(domspecs, rng, cap=64):
+    vals = [dom_probe_values(d) for d in domspecs]
+    out = [list(t) for t in itertools.product(*vals)]
+    if len(out) > cap: out = rng.sample(out, cap)
+    if all(vals):
+        full = [v[-1] for v in vals]
+        for k in range(len(full)): out.append(full[:k])
+        out.append(full + ["'extra'"])
+        for k in range(len(full)):
+            # unknown value of a FiniteDomain (KeyError from numberize).  Out-of-range ints of a RangeDomain are NOT
+            # probed here: RangeDomain.numberize does not range-check and PatternedTensor.__getitem__ returns the
+            # default as soon as one index is off the pattern, without range-checking the later ones (its range
+            # checks are `if __debug__` assertions), so there is no dense-tensor-like IndexError contract to judge
+            if domspecs[k][0] == "finite":
+                bad = list(full); bad[k] = "'nope'"; out.append(bad)
+    return out
+
+def run_pfac_all(spec):
+    """spec: dict(base=, chain=[ops], flav=[ints], mism=None|"drop"|"plus", seed=int,
+                  steps=[["apply"] | ["set", base, chain] | ["inplace", op, arg]])
+    One history on ONE FiniteFactor object; every step yields a case (a segment): the representation of
+    f.weights observed after the step's action, the applies / == asked then, the representation after them."""
+    import torch
+    from fggs.factors import FiniteFactor
+    from fggs.indices import PatternedTensor
+    cn = Canon(); world = U.World(); rng = random.Random(spec["seed"])
+    def make(base, chain):
+        t = build_pw(base, world)
+        for op in chain:
+            r = conv_pw(t, op)
+            if r is not None: t = r
+        return t
+    w = make(spec["base"], spec["chain"])
+    shape = [int(n) for n in w.shape]
+    dsizes = list(shape)
+    if spec.get("mism") == "drop" and dsizes: dsizes = dsizes[:-1]
+    elif spec.get("mism") == "plus" and dsizes: dsizes[-1] += 1
+    elif spec.get("mism") == "plus": dsizes = [1]
+    flav = spec["flav"]
+    domspecs = [pick_domspec(n, flav[i % len(flav)]) for i, n in enumerate(dsizes)]
+    doms = [build_dom(d) for d in domspecs]
+    dw = [obs_dom(d, cn) for d in doms]
+    out = []
+    def conv(r):
+        return tensor_w(r if isinstance(r, torch.Tensor) else torch.tensor(float(r)))
+    def segment(f, p):
+        """applies and comparisons on f, whose weights have the representation p"""
+        iapps = []
+        for a in pfac_probes(domspecs, rng):
+            vs = [lit(s) for s in a]
+            iapps.append(([cn.v(v) for v in vs], attempt(lambda: f.apply(vs), conv)))
+        ieqs = []
+        cur = f.weights
+        others = [f, FiniteFactor([build_dom(d) for d in domspecs], cur.clone()),
+                  FiniteFactor(doms, PatternedTensor(cur.to_dense()))]
+        if cur.numel() >= 1 and cur.dtype != torch.bool:
+            d2 = cur.to_dense().clone(); d2.reshape(-1)[rng.randrange(cur.numel())] += 1.5
+            others.append(FiniteFactor(doms, d2))
+        for g in others:
+            ieqs.append((obs_fac(g, cn), bool(f == g)))
+        # a second round of applies on the same object (anything remembered from the first must not matter)
+        for a in pfac_probes(domspecs, rng, cap=8)[:8]:
+            vs = [lit(s) for s in a]
+            iapps.append(([cn.v(v) for v in vs], attempt(lambda: f.apply(vs), conv)))
+        out.append((dw, p, obs_pat(f.weights, world), ("Ok", obs_fac(f, cn)), iapps, ieqs))
+    p0 = obs_pat(w, world)
+    try:
+        f = FiniteFactor(doms, w)
+    except Exception as e:
+        out.append((dw, p0, obs_pat(w, world), ("Err", exn_of(e)), [], []))
+        return out
+    segment(f, p0)
+    for st in spec["steps"]:
+        if st[0] == "apply":
+            pass
+        elif st[0] == "set":
+            w2 = make(st[1], st[2]); p2 = obs_pat(w2, world)
+            try:
+                f.weights = w2
+            except Exception as e:
+                out.append((dw, p2, obs_pat(w2, world), ("Err", exn_of(e)), [], []))
+        elif st[0] == "inplace":
+            cur = f.weights
+            try:
+                if st[1] == "physmul": cur.physical.mul_(st[2])
+                elif st[1] == "physset": cur.physical.reshape(-1)[st[2] % max(cur.physical.numel(), 1)] = 9.25
+                elif st[1] == "neg_": cur.neg_()
+                elif st[1] == "imul": cur *= st[2]
+                elif st[1] == "default": cur.default = float(st[2])
+                elif st[1] == "copy_":
+                    src = make(st[2], st[3])
+                    if src.shape == cur.shape: cur.copy_(src)        # copy_ by-passes the setter's shape check
+                else: raise ValueError(st[1])
+            except (RuntimeError, TypeError, ValueError, AssertionError):
+                pass                  # e.g. an in-place operation on an expanded (stride 0) physical tensor
+        segment(f, obs_pat(f.weights, world))
+    return out
+
+def run_pfac(spec):
+    return run_pfac_all(spec)[spec["segment"]]
 
 def obs_state(g, cn):
     els = []
@@ -546,6 +723,86 @@ def mutate_nested(x, rng):
     if r < 0.5 and isinstance(x[i], list): return x[:i] + [0.125] + x[i + 1:]
     return x[:i] + [mutate_nested(x[i], rng)] + x[i + 1:]
 
+# --- patterned weights --------------------------------------------------------
+
+PDEFAULTS = [1.75, -math.inf, 0.0, math.inf, -1.0, 7.0, 2.5]
+
+def pspec(vaxes, rng, default, dtype="f64", specials=False):
+    paxes = U.fv_list(vaxes); rng.shuffle(paxes)
+    m = math.prod(n for _, n in paxes)
+    return dict(vaxes=vaxes, paxes=paxes, default=default, dtype=dtype, values=U.gen_values(m, rng, "float", specials=specials))
+
+def rnd_chain(rng):
+    ops = [["T"], ["permute", rng.sample([0, 1, 2], 3)], ["clone"], ["freshen"], ["default_to", rng.choice(PDEFAULTS)],
+           ["getitem", [rng.randrange(6)]], ["stack", rng.choice([1, 2, 3]), rng.choice([None, 5.0, -math.inf]), rng.randrange(3)],
+           ["unsqueeze", rng.randrange(3)], ["flatten"], ["dim_to_dense", rng.randrange(3)], ["mul", 2.0], ["add_self"],
+           ["expand", rng.choice([1, 2, 3])]]
+    return [rng.choice(ops) for _ in range(rng.randint(1, 3))]
+
+def rnd_base(rng, universe, types=None, max_numel=36):
+    r = rng.random()
+    if types is None and r < 0.12: return ["eye", rng.choice([1, 2, 3, 4]), rng.choice(SEMIRINGS)]
+    if types is None and r < 0.18: return ["full", [rng.choice([1, 2, 3]) for _ in range(rng.choice([0, 1, 2, 3]))], rng.choice(PDEFAULTS), "f64"]
+    if types is None and r < 0.24:
+        sh = [rng.choice([1, 2, 3]) for _ in range(rng.choice([1, 2]))]
+        return ["dense", sh, [x for x in U.gen_values(numel(sh), rng, "float", specials=False)], rng.choice(PDEFAULTS)]
+    spec, _ = U.gen_tensor(rng, types=types, kind="float", default=rng.choice(PDEFAULTS), max_numel=max_numel, universe=universe,
+                           dtype=rng.choice(["f64", "f64", "f32"]))
+    spec = dict(spec); spec.pop("types", None)
+    return ["spec", spec]
+
+def gen_pfac_cases(rng, tier):
+    cases = []
+    k = 0
+    def add(gen, base, chain=(), mism=None, steps=()):
+        nonlocal k
+        k += 1
+        cases.append((gen, dict(base=base, chain=list(chain), flav=[(k + j) % 5 for j in range(4)], mism=mism, seed=k, steps=list(steps))))
+    # every pattern over small typed shapes (rank 1 and 2), the default cycling through non-zero values, -inf, 0, inf
+    small = U.all_types(max_leaves=2, max_size=4, atoms=(2, 3))
+    shapes = [[t] for t in small] + [[a, b] for a in small for b in small if U.tsize(a) * U.tsize(b) <= 12]
+    for ts in shapes:
+        for vaxes, _ in U.enum_patterns(ts):
+            add("enum", ["spec", pspec(vaxes, rng, PDEFAULTS[k % len(PDEFAULTS)])])
+    # every constructor of the library
+    for n in (1, 2, 3, 4):
+        for sr in SEMIRINGS: add("eye", ["eye", n, sr])
+    for sr in SEMIRINGS:
+        for x in (0, 1, 3): add("from_int", ["from_int", x, sr])
+    for sh in all_shapes(3, [1, 2, 3]):
+        if numel(sh) <= 12:
+            add("full", ["full", sh, PDEFAULTS[k % 5], "f64"]); add("full", ["full", sh, 0.75, "f32"])
+    for sh in ([2], [1], [2, 3], [3, 1], [1, 1], [2, 2, 2], [0], [2, 0]):
+        add("dense", ["dense", sh, U.gen_values(numel(sh), rng, "float", specials=False), PDEFAULTS[k % len(PDEFAULTS)]])
+    # random typed patterns (products, sums, shared axes, one-hot dimensions; +-inf among the stored values)
+    universe = U.all_types() + U.onehot_types()
+    for i in range(220 if tier == "quick" else 4000):
+        add("rnd", rnd_base(rng, universe))
+    # conversion paths: the weights are the result of library operations on a patterned tensor
+    for i in range(160 if tier == "quick" else 3000):
+        add("chain", rnd_base(rng, universe, max_numel=16), rnd_chain(rng))
+    # shapes the setter must refuse
+    for i in range(60 if tier == "quick" else 600):
+        add("mism", rnd_base(rng, universe), rnd_chain(rng) if rng.random() < 0.3 else [], mism=rng.choice(["drop", "plus"]))
+    # histories on one factor object: re-assignment of the weights and in-place updates between the applies
+    for i in range(110 if tier == "quick" else 2000):
+        ts = U.gen_shape_types(rng, max_numel=24, types=universe)
+        base = rnd_base(rng, universe, types=ts)
+        steps = []
+        for _ in range(rng.randint(2, 4)):
+            r = rng.random()
+            other = rnd_base(rng, universe, types=ts if rng.random() < 0.85 else None)
+            if r < 0.3: steps.append(["set", other, [] if rng.random() < 0.7 else [["clone"]]])
+            elif r < 0.4: steps.append(["inplace", "copy_", other, []])
+            elif r < 0.55: steps.append(["inplace", "default", rng.choice(PDEFAULTS)])
+            elif r < 0.65: steps.append(["inplace", "physmul", 2.0])
+            elif r < 0.75: steps.append(["inplace", "physset", rng.randrange(64)])
+            elif r < 0.85: steps.append(["inplace", "neg_", None])
+            elif r < 0.93: steps.append(["inplace", "imul", 0.5])
+            else: steps.append(["apply"])
+        add("hist", base, [], steps=steps)
+    return cases
+
 # --- binding histories -------------------------------------------------------
 
 NLS = ["A", "B", "C"]
@@ -697,6 +954,7 @@ def gen_bind_cases(rng, tier):
 
 DOM_MSG = {1: "a FiniteDomain/RangeDomain answer violates C20_bijection (verified oracle bij_oracle / range_oracle / eq_oracle rejects it)"}
 FAC_MSG = {1: "a FiniteFactor answer violates C20_shape (verified oracle ctor_oracle / apply_oracle / fac_eqb rejects it)"}
+PFAC_MSG = {1: "a FiniteFactor with PatternedTensor weights violates C20_shape / C20_apply_patterned: the verified oracle (ctor_oracle / apply_oracle / fac_eqb) rejects an answer judged against the dense denotation that Coq computes from the weights' representation (physical, paxes, vaxes, default)"}
 BIND_MSG = {1: "an InterpretationMixin call violates C20_binding (verified oracle bind_spec / domain_spec / shape_of rejects its outcome)"}
 
 def judge(kind, cf, msgs, keys, items, vals, codes, violations, calls):
@@ -717,9 +975,10 @@ def judge(kind, cf, msgs, keys, items, vals, codes, violations, calls):
 def obs_summary(kind, v):
     if kind == "dom": return dict(object=v[3][0], size=v[3][1], contains=v[3][2], numberize=v[3][3], denumberize=v[3][4], eq_ne=[e[1] for e in v[3][5]])
     if kind == "fac": return dict(ctor=v[1], applies=v[2], eq=[e[1] for e in v[3]])
+    if kind == "pfac": return dict(domains=v[0], weights_representation=v[1], representation_afterwards=v[2], factor=v[3], applies=v[4], eq=[e[1] for e in v[5]])
     return dict(outcomes=[s[1] for s in v[1]])
 
-RUNNERS = {"dom": (run_dom, DOM), "fac": (run_fac, FAC), "bind": (run_bind, BIND)}
+RUNNERS = {"dom": (run_dom, DOM), "fac": (run_fac, FAC), "bind": (run_bind, BIND), "pfac": (run_pfac, FACP)}
 
 MAX_REPORTED = 150                  # per non-zero verdict code
 
@@ -759,6 +1018,8 @@ def nontrivial(kind, spec):
         return (len(d[2]) >= 2) if d[0] == "finite" else (d[1] == "inf" or d[1] >= 2)
     if kind == "fac":
         return len(spec["fac"][1]) >= 1
+    if kind == "pfac":
+        return spec["base"][0] != "from_int"
     return sum(1 for o in spec["ops"] if o[0] in ("add_factor", "new_finite_factor")) >= 1 and len(spec["ops"]) >= 3
 
 def run(tier, seed):
@@ -766,22 +1027,35 @@ def run(tier, seed):
     warnings.filterwarnings("ignore")
     rng = random.Random(seed)
     violations = []
-    gens = {"dom": gen_dom_cases(rng, tier), "fac": gen_fac_cases(rng, tier), "bind": gen_bind_cases(rng, tier)}
-    msgs = {"dom": (DOM_MSG, {}), "fac": (FAC_MSG, {}), "bind": (BIND_MSG, {})}
+    gens = {"dom": gen_dom_cases(rng, tier), "fac": gen_fac_cases(rng, tier), "bind": gen_bind_cases(rng, tier),
+            "pfac": gen_pfac_cases(rng, tier)}
+    msgs = {"dom": (DOM_MSG, {}), "fac": (FAC_MSG, {}), "bind": (BIND_MSG, {}), "pfac": (PFAC_MSG, {})}
     calls = {"dom": "FiniteDomain(...)/RangeDomain(...): size, contains, numberize, denumberize, ==, !=",
              "fac": "FiniteFactor(doms, weights) / ConstantFactor; .apply(values); ==",
-             "bind": "FactorGraph()/FGG('S'): add_domain, add_factor, new_finite_domain, new_finite_factor, shape, add_edge_label"}
+             "bind": "FactorGraph()/FGG('S'): add_domain, add_factor, new_finite_domain, new_finite_factor, shape, add_edge_label",
+             "pfac": "f = FiniteFactor(doms, <PatternedTensor>); f.apply(values); f == g; f.weights = ...; in-place updates of f.weights; f.apply(values) again"}
     total = 0; nk_total = 0; hist = {}; distinct = 0; samples = []; verdicts = {}; unreported = {}
+    seg_stats = {"unstored": 0, "all_stored": 0, "nonzero_default": 0}
     import time
     phase = {}; t_last = time.time()
     def lap(name):
         nonlocal t_last
         phase[name] = round(time.time() - t_last, 1); t_last = time.time()
-    for kind in ("dom", "fac", "bind"):
+    for kind in ("dom", "fac", "bind", "pfac"):
         runner, cf = RUNNERS[kind]
         items, vals = [], []
         for gen, spec in gens[kind]:
             try:
+                if kind == "pfac":
+                    segs = run_pfac_all(spec)
+                    for j, v in enumerate(segs):
+                        items.append((gen, dict(spec, segment=j))); vals.append(v)
+                        hist[kind + ":" + gen] = hist.get(kind + ":" + gen, 0) + 1
+                        if v[3][0] == "Ok":
+                            unst = len(v[1][1]) < math.prod(U.a_numel(e) for e in v[1][2])
+                            seg_stats["unstored" if unst else "all_stored"] += 1
+                            if unst and v[1][3] != 0: seg_stats["nonzero_default"] += 1
+                    continue
                 v = runner(spec)
             except Exception as e:
                 import traceback
@@ -798,16 +1072,17 @@ def run(tier, seed):
         judge(kind, cf, msgs[kind][0], msgs[kind][1], items, vals,
               [c if i in report else 0 for i, c in enumerate(codes)], violations, calls[kind])
         for c in codes: verdicts["%s:%d" % (kind, c)] = verdicts.get("%s:%d" % (kind, c), 0) + 1
-        distinct += len({json.dumps(spec, sort_keys=True) for _, spec in items if nontrivial(kind, spec)})
+        distinct += len({json.dumps(spec, sort_keys=True, default=str) for _, spec in items if nontrivial(kind, spec)})
         if items:
             samples.append(dict(kind=kind, spec=items[len(items) // 2][1]))
             samples.append(dict(kind=kind, spec=items[-1][1]))
     cov = dict(evaluations=total, distinct_nontrivial=distinct,
                rule="dom: every value list of length <= 3 over {0, 1, 'a', None, True} (duplicates and the cross-type duplicate 1/True included) as list, tuple and generator; random domains of size 0..8 over 20 mixed hashable values given as list/tuple/generator/iterator/dict (20% with duplicates); RangeDomain sizes 0,1,2,3,5,inf; each with contains/numberize on members and non-members, denumberize on -n-2..n+1, ==/!= against 5-8 other domains. "
                     "fac: (domain sizes, weight shape) pairs up to rank 3 over sizes 0..3 (quick: all pairs with sizes <= 2, every matching pair, 400 sampled others; thorough: all 7225) in the forms nested list / Tensor / PatternedTensor (default dtype) and, for every matching pair and a seventh of the others, float64 Tensor / PatternedTensor with entries not representable in float32, plus eye/full patterned tensors, infinite domains and domains built from generators, malformed nested lists (ragged, mixed depth, empty rows); apply on every complete value tuple, prefixes, over-long and unknown values; == against 6-9 other factors. "
+                    "pfac (weights = PatternedTensor, judged against the Gallina denotation of the observed representation): every pattern over typed shapes of rank 1-2 with dimension types unit/2/3/2x2/2+2/.. (shared axes = diagonals, SumAxis padding, products), defaults cycling through 1.75, -inf, 0, inf, -1, 7, 2.5; PatternedTensor.eye(1..4) in the Real/Log/Viterbi/Bool semirings, from_int, full, PatternedTensor(dense, default=d) incl. size-0 and size-1 dims; 220 random typed patterns (products, sums, one-hot dims, +-inf stored); 160 conversion chains (T, permute, clone, freshen, default_to, t[i], stack, unsqueeze, flatten, dim_to_dense, mul, add, expand); 60 shapes the setter must refuse; 110 histories on ONE factor object (f.weights = other, copy_, default re-assigned, physical.mul_, element overwritten, neg_, *=) with applies after every step.  Per segment: apply on every complete value tuple (<= 64; stored and unstored positions), prefixes, over-long, unknown values, a second round of applies, == against self / clone with equal-not-identical domains / dense copy / one element changed, representation of the weights before and after. "
                     "bind: every pairing of an edge label (terminal/nonterminal, type over {A,B}, arity 0..3) with a factor (domains over {D2, D3, R2}, arity 0..3) under pre-states (label unregistered / registered / clashing / nonterminal clash / already bound; node labels mapped to equal / different / no domain), all matching pairings under every pre-state, equal-by-content vs different domain in every position, new_finite_domain / new_finite_factor grids, random histories; FactorGraph and FGG alternate; shape() on label lists, tuples, node lists, EdgeLabel, Edge. "
                     "non-trivial = domain of size >= 2 (or range size >= 2), factor of rank >= 1, history with >= 3 calls including a factor binding; distinct by spec",
-               samples=samples, phase_seconds=phase, generator_histogram=hist, verdict_histogram=verdicts, kernel_reevaluated=nk_total,
+               samples=samples, patterned_weight_segments=seg_stats, phase_seconds=phase, generator_histogram=hist, verdict_histogram=verdicts, kernel_reevaluated=nk_total,
                kernel_policy="every reported violation is re-evaluated with vm_compute; zero verdicts are sampled",
                nonzero_verdicts_counted_but_not_reported=unreported,
                open_items=OPEN_ITEMS)
@@ -833,7 +1108,7 @@ def core_jsonable(x):
 
 MANIFEST = dict(
     level="proof",
-    text="Coq theorems about a Gallina model that follows fggs/domains.py, fggs/factors.py and InterpretationMixin statement by statement: C20_bijection (numberize/denumberize mutually inverse between distinct values and 0..size-1, contains agrees, equality by content; RangeDomain on the integers), C20_shape (a FiniteFactor accepts exactly weights of shape map size domains; apply is the weight at the row-major position of the numberized values; factor equality by domains and elementwise weights), C20_binding (add_factor succeeds iff terminal, label table consistent, arities agree, every node label mapped to an equal domain, label not already bound), all at full strength for any iterable of values (F14 and F15 are repaired in /repo 19d007a / 7d2f845; their refutations are kept only about the explicitly named old definitions), and RangeDomain.contains holds exactly for the ints a denumberize yields (repaired in /repo 973b650; Python values are modelled as equality class + isinstance-int flag).  No known finding is left.  The model is tied to /repo by running both on generated domains, factors and call histories; boolean oracles proved sound in Coq judge every implementation answer.",
-    note="Trusted: Coq kernel + vm_compute, extraction cross-checked against vm_compute, the Python harness that canonicalises values (numbers to rationals, other hashables to codes by ==) and observes object attributes; PatternedTensor inputs are modelled by their dense denotation.",
+    text="Coq theorems about a Gallina model that follows fggs/domains.py, fggs/factors.py and InterpretationMixin statement by statement: C20_bijection (numberize/denumberize mutually inverse between distinct values and 0..size-1, contains agrees, equality by content; RangeDomain on the integers), C20_shape (a FiniteFactor accepts exactly weights of shape map size domains; apply is the weight at the row-major position of the numberized values; factor equality by domains and elementwise weights), C20_binding (add_factor succeeds iff terminal, label table consistent, arities agree, every node label mapped to an equal domain, label not already bound), all at full strength for any iterable of values (F14 and F15 are repaired in /repo 19d007a / 7d2f845; their refutations are kept only about the explicitly named old definitions), C20_apply_patterned (weights given as a PatternedTensor of any pattern and default: a case accepted by facp_check has every complete apply equal to the element the representation denotes at the numberized position -- the stored element or the default; C20_pat_dense_at / _wf / C20_pat_at_unstored / _stored about the dense denotation computed in Coq), and RangeDomain.contains holds exactly for the ints a denumberize yields (repaired in /repo 973b650; Python values are modelled as equality class + isinstance-int flag).  No known finding is left.  The model is tied to /repo by running both on generated domains, factors and call histories; boolean oracles proved sound in Coq judge every implementation answer.",
+    note="Trusted: Coq kernel + vm_compute, extraction cross-checked against vm_compute, the Python harness that canonicalises values (numbers to rationals, other hashables to codes by ==) and observes object attributes; PatternedTensor inputs are modelled by their dense denotation (fac: as to_dense() reports it; pfac: computed in Coq from the observed physical/paxes/vaxes/default).",
     technique="Coq proof (model + theorems) + model/implementation correspondence with verified-spec oracle",
     design_ref="DESIGN.md section 6, C20")
